@@ -25,8 +25,8 @@ PROPS = {
         level="other",
         explanation="Inductive step: RegisterPipeline / RegisterNode / RemoveNode / RemovePipelineAndNodes / IsAnyPipelineRegistered executed symbolically from an arbitrary broker state under the representation invariant (K symbolic node ids, symbolic types/policies/counts, target pipeline + one other pipeline explicit, the rest as ghost counts); spec predicate written independently in the harness; err==nil <=> spec and frame conditions discharged by z3.",
         jobs=[dict(harness=BROKER_H, entries=r"^H_C05_", params=dict(quick=dict(K=2, L=2), thorough=dict(K=3, L=3)),
-                   shards=dict(quick=1, thorough=16, H_C05_RegisterPipeline=16))],
-        must_reach=["C05.register.ok", "C05.register.fail", "C05.isany.end", "C05.registernode.fail", "C05.removenode.fail", "C05.rpan.false"],
+                   shards=dict(quick=1, thorough=16, H_C05_RegisterPipeline=16, H_C05_isany_after_history=16))],
+        must_reach=["C05.register.ok", "C05.register.fail", "C05.isany.end", "C05.registernode.fail", "C05.removenode.fail", "C05.rpan.false", "C05.isany.history"],
         bounds=dict(quick="K=2 node ids, definition length 0..2, existing pipeline length 2, one other pipeline; any number of pipelines of other types (ghost)",
                     thorough="K=3 node ids, definition length 0..3, existing pipeline length 2..3"),
         trusted_base=COMMON_TRUST,
@@ -135,7 +135,8 @@ EO_NOTE = "Schedules: thread automata of graph.process (collector), its range go
 PROPS["C03"] = dict(
     level="model_checking",
     explanation=EO_NOTE + "Queries (each must be unsat): D deadlock or goroutine leak once all nodes returned; R collector not returned although cancelled (nodes may hang forever); T not returned although never cancelled; U collector loop bound; W send on closed channel / double close / negative WaitGroup / thread panic. Reachability twins must be sat.",
-    jobs=[dict(EO_JOB, eo_queries=["twin", "D", "R", "T", "U", "W"])],
+    jobs=[dict(EO_JOB, eo_queries=["twin", "D", "R", "T", "U", "W"]),
+          dict(harness=BROKER_H, entries=r"^H_C12_reentry_vs_writer$", params=dict(quick={}, thorough={}), shards=dict(quick=4, thorough=8), maxswitches=dict(quick=3, thorough=5), instrument_locks=True)],
     must_reach=[],
     bounds=dict(quick="all 15 ordered shapes with P<=3 pipelines x N_i in {2,3} nodes; all schedules, cancel instants (never/anywhere), outcomes, node delays", thorough="P<=4 x N_i in {2,3,5} (121 ordered shapes) + 4x4 + 5x3"),
     assumptions=["received Status values are havocked in the automata (control never depends on them; contents are checked on the sequential harness)", "hand-written Go channel/select/WaitGroup/context semantics of the composer (eo_compose.py) is trusted; latency in seconds is not expressible (enabledness instead)"],
